@@ -15,7 +15,7 @@
 (***************************************************************************)
 EXTENDS Integers, Sequences, FiniteSets, Json, IOUtils, TLC
 
-CONSTANTS Family, Emit
+CONSTANTS Family, Emit, MaxWit
 VARIABLE c
 
 \* ---- items --------------------------------------------------------------------------------------
@@ -123,12 +123,52 @@ Intended(x) ==
       [] x.lock = "ga" /\ x.wit = "gascr" -> x.sursig = Lk /\ x.script = "1" /\ x.wkey = Lk
       [] OTHER -> FALSE
 
+\* ---- m-of-n multisignature locks (family "ms") -------------------------------------------------------
+\* make_multisig_lock(keys 1..n, m, allowed flags) against the concatenation of single-signature witnesses
+\* [who, fl]: who = a listed key 1..n or the outsider 9; the witness lists them bottom first.  The lock
+\* pushes the n keys and runs CHECK_MULTISIG m n, modelled as the greedy matcher it is: signatures taken
+\* from the top, each compared with the keys still unused; a verifying key is consumed; a signature with a
+\* non-permitted flag raises at its first comparison; byte-identical signatures count once.
+Outsider == 9
+MsSig(n) == [who : (1..n) \cup {Outsider}, fl : {"f0", "perm", "nonperm"}]
+MsShapes == {<<1, 1>>, <<1, 2>>, <<2, 2>>, <<2, 3>>, <<3, 3>>}
+MsLens(m) == {k \in {m - 1, m, m + 1} : k >= 0 /\ k <= MaxWit}
+MsCases(z) == UNION { UNION { [lock : {"ms"}, m : {mn[1]}, n : {mn[2]}, sigs : [1..k -> MsSig(mn[2])],
+                               fields : {"same", "covered", "excluded"}] : k \in MsLens(mn[1]) } : mn \in MsShapes }
+MsValid(sg, k, f) == sg.who = k /\ sg.fl # "nonperm" /\ (f = "same" \/ (f = "excluded" /\ sg.fl = "perm"))
+\* greedy matcher over the m signatures taken (top first); state: remaining keys, confirmed signatures
+RECURSIVE MsMatch(_, _, _, _, _)
+MsMatch(sigs, i, rem, conf, f) ==
+    IF i > Len(sigs) THEN IF Cardinality(conf) = Len(sigs) THEN "true" ELSE "false"
+    ELSE LET sg == sigs[i] IN
+         IF rem = {} THEN MsMatch(sigs, i + 1, rem, conf, f)
+         ELSE IF sg.fl = "nonperm" THEN "error"
+         ELSE IF \E k \in rem : MsValid(sg, k, f)
+              THEN MsMatch(sigs, i + 1, rem \ {sg.who}, conf \cup {sg}, f)
+              ELSE MsMatch(sigs, i + 1, rem, conf, f)
+MsAccept(x) ==
+    LET L == Len(x.sigs) IN
+    IF L < x.m THEN FALSE                                     \* CHECK_MULTISIG runs out of items: error
+    ELSE LET taken == [j \in 1..x.m |-> x.sigs[L + 1 - j]]     \* top first
+         IN MsMatch(taken, 1, 1..x.n, {}, x.fields) = "true" /\ L = x.m      \* nothing may be left under the verdict
+\* declarative: exactly m signatures, each valid for the sigfields as they are, by m different listed keys
+MsIntended(x) ==
+    /\ Len(x.sigs) = x.m
+    /\ \A i \in 1..x.m : x.sigs[i].who \in 1..x.n /\ MsValid(x.sigs[i], x.sigs[i].who, x.fields)
+    /\ \A i, j \in 1..x.m : i # j => x.sigs[i].who # x.sigs[j].who
+MsSigners(x) == {x.sigs[i].who : i \in {j \in 1..Len(x.sigs) : x.sigs[j].who \in 1..x.n}}
+
 TraceLog == JsonDeserialize(IOEnv.TRACE_FILE)
-Init == IF Family = "trace" THEN c \in {[lock |-> "t", i |-> i] : i \in 1..Len(TraceLog)} ELSE c \in Cases(0)
+Init == IF Family = "trace" THEN c \in {[lock |-> "t", i |-> i] : i \in 1..Len(TraceLog)}
+        ELSE IF Family = "ms" THEN c \in MsCases(0) ELSE c \in Cases(0)
 Next == UNCHANGED c
 Spec == Init /\ [][Next]_c
 
-NotT == c.lock # "t"
+NotT == c.lock \notin {"t", "ms"}
+IsMs == c.lock = "ms"
+\* m-of-n: the greedy matcher accepts exactly the declarative quorum; one holder never makes a quorum of 2
+MsAcceptIffIntended == IsMs => (MsAccept(c) <=> MsIntended(c))
+MsFewerHoldersRejected == IsMs /\ Cardinality(MsSigners(c)) < c.m => ~MsAccept(c)
 \* operational model of every lock = declarative intention, for every witness of every builder
 AcceptIffIntended == NotT => (Accept(c) <=> Intended(c))
 \* corollaries named in the property
@@ -137,8 +177,13 @@ SurrogateBound == NotT /\ c.wit \in {"grsur", "gascr"} /\ (c.sursig # Lk \/ c.sc
 
 Out == [lock |-> c.lock, wit |-> c.wit, wkey |-> c.wkey, fields |-> c.fields, fl |-> c.fl, script |-> c.script, sursig |-> c.sursig,
         expect |-> IF Accept(c) THEN "true" ELSE "false"]
-EmitCase == ~NotT \/ ~Emit \/ PrintT(ToJson(Out))
-TraceCheck == NotT \/ LET r == TraceLog[c.i]
+MsOut == [lock |-> "ms", m |-> c.m, n |-> c.n, sigs |-> c.sigs, fields |-> c.fields, expect |-> IF MsAccept(c) THEN "true" ELSE "false"]
+EmitCase == ~Emit \/ c.lock = "t" \/ PrintT(ToJson(IF IsMs THEN MsOut ELSE Out))
+TraceCheck == c.lock # "t" \/ LET r == TraceLog[c.i] IN
+              IF r.lock = "ms"
+              THEN LET x == [lock |-> "ms", m |-> r.m, n |-> r.n, sigs |-> r.sigs, fields |-> r.fields]
+                   IN PrintT(ToJson([i |-> c.i, v |-> IF r.got = (IF MsAccept(x) THEN "true" ELSE "false") THEN "ok" ELSE "verdict"]))
+              ELSE LET
                           x == [lock |-> r.lock, wit |-> r.wit, wkey |-> r.wkey, fields |-> r.fields, fl |-> r.fl, script |-> r.script, sursig |-> r.sursig]
                       IN PrintT(ToJson([i |-> c.i, v |-> IF r.got = (IF Accept(x) THEN "true" ELSE "false") THEN "ok" ELSE "verdict"]))
 =============================================================================
